@@ -344,6 +344,24 @@ def _directed():
             yield mk_case(lens, rs)
             for cs in [slice(None), slice(None, None, -1), slice(1, None), slice(None, -1, 2), slice(-1, None, -2)]:
                 yield mk_case(lens, rs, cs, True)
+    # several hundred to a few thousand selected rows: sorted lists with repeats / gaps (where "the rows are ordered" shortcuts go wrong), with and without columns
+    import random
+    rng = random.Random(2020)
+    for nrows in (300, 600, 1500):
+        ml = [(i * 5) % 4 + (1 if i % 7 else 0) for i in range(nrows)]
+        picks = {
+            "sorted-repeats": sorted(rng.randrange(nrows) for _ in range(nrows + 40)),
+            "each-twice": [i for i in range(0, nrows, 1) for _ in range(2)],
+            "sorted-gaps": sorted(set(rng.randrange(nrows) for _ in range(nrows))),
+            "repeat-then-gap": [i if i % 9 else i - 1 for i in range(1, nrows)],
+        }
+        for nm, rows_ in picks.items():
+            arr = np.array(rows_, dtype=np.int64)
+            yield mk_case(ml, arr)
+            yield mk_case(ml, arr, slice(0, 2), True)
+            yield mk_case(ml, arr, slice(1, None), True)
+            yield mk_case(ml, arr, slice(None, None, -1), True, "lazycols+2")
+            yield mk_case(ml, list(rows_), slice(None, 1), True, "lazyrows")
     hl = [(i * 7) % 3 for i in range(130001)]       # more than 100000 rows
     yield mk_case(hl, np.array([i % 5 != 2 for i in range(130001)]))
     yield mk_case(hl, slice(None, None, 1), slice(None, None, -1), True)
